@@ -13,6 +13,7 @@ import (
 	"verifmc/internal/ops"
 	"verifmc/internal/vnode"
 	"verifmc/internal/xs"
+	"verifmc/props/c11"
 )
 
 // C02 — replay determinism. For every producer history of a bounded family, enumerate exhaustively the follower's
@@ -86,8 +87,31 @@ func produce(c *xs.Ctx, hist []ops.Op) (*prodRecord, *vnode.Node) {
 	return rec, p
 }
 
+// world: "" = standard consensus constants; "short-epochs" = C11's constants (election tick 3 slots, epoch 6 momentums,
+// reward settlement 10 s after an epoch's end), process-global, hence a worker process of its own
+var world = ""
+
+func worldPrefix() string {
+	if world == "" {
+		return ""
+	}
+	return "[" + world + "] "
+}
+
+// shortEpochHistory: delegations move, pillar 3 is revoked in the first epoch, three epochs go by and are settled by the
+// pillar contract's Update. What a follower accepts must not depend on read-only consensus queries it answered on the way
+// (they touch the consensus module's caches of period and epoch points) nor on whether it was restarted after them.
+func shortEpochHistory() []ops.Op {
+	M := ops.Op{K: "M"}
+	h := []ops.Op{M, {K: "Call", S: "delegate", A: 2, B: 1}, M, {K: "RevokeP3"}, M}
+	for i := 0; i < 16; i++ {
+		h = append(h, M)
+	}
+	return h
+}
+
 type fAct struct {
-	K string `json:"k"` // D deliver [n+1..J] | G gossip block (H,I) | X restart | Y restart with wiped consensus db | W warm all views | Q re-deliver [I..n]
+	K string `json:"k"` // D deliver [n+1..J] | G gossip block (H,I) | X restart | Y restart with wiped consensus db | W warm all views | Q re-deliver [I..n] | C read-only consensus queries (short-epoch world)
 	J uint64 `json:"j,omitempty"`
 	H uint64 `json:"h,omitempty"`
 	I int    `json:"i,omitempty"`
@@ -113,12 +137,15 @@ func actsString(as []fAct) string {
 }
 
 type c02bounds struct {
-	maxBatch   uint64
-	gossipWin  uint64
-	maxWarm    int
-	maxRestart int
-	maxGossip  int
-	maxRedeliv int
+	maxBatch              uint64
+	gossipWin             uint64
+	maxWarm               int
+	maxRestart            int
+	maxGossip             int
+	maxRedeliv            int
+	maxQuery              int    // read-only consensus queries (pillar weights, statistics of every epoch up to the running one, next producers)
+	step                  uint64 // > 0: momentums are delivered in batches that end on multiples of step (short-epoch world: one election tick)
+	restartAfterQueryOnly bool
 }
 
 // followerRun replays actions on a fresh follower, checking the oracle after every action. Returns the state key.
@@ -126,10 +153,11 @@ func followerRun(c *xs.Ctx, r *xs.Result, rec *prodRecord, hist []ops.Op, acts [
 	f := vnode.New(vnode.Options{Dir: c.TempDir(), NoPillars: true})
 	defer f.Destroy()
 	warm := []string{}
+	queried := []string{} // the ledger / pool key cannot see in-memory consensus caches: query heights are part of the state
 	bad := func(what string, sig string) {
 		viol = true
-		r.Violate("C02:"+sig, fmt.Sprintf("history [%s] schedule [%s]: %s", ops.Hist(hist), actsString(acts), what),
-			map[string]interface{}{"history": hist, "schedule": acts})
+		r.Violate("C02:"+sig, fmt.Sprintf("%shistory [%s] schedule [%s]: %s", worldPrefix(), ops.Hist(hist), actsString(acts), what),
+			map[string]interface{}{"history": hist, "schedule": acts, "world": world})
 	}
 	for ai, a := range acts {
 		last := ai == len(acts)-1
@@ -171,6 +199,15 @@ func followerRun(c *xs.Ctx, r *xs.Result, rec *prodRecord, hist []ops.Op, acts [
 				bad("gossiped account block changed the confirmed store", "gossip-changes-store")
 				return
 			}
+		case "C":
+			// what the pillar RPC does for embedded.pillar.getAll: it must leave no trace in anything the node decides later
+			before = f.FullDigest() + f.PoolDigest()
+			f.ConsensusDigest(3)
+			if after := f.FullDigest() + f.PoolDigest(); after != before {
+				bad("a read-only consensus query changed the store", "query-changes-store")
+				return
+			}
+			queried = append(queried, fmt.Sprint(f.Height()))
 		case "X":
 			f.Restart()
 			warm = warm[:0]
@@ -213,6 +250,15 @@ func followerRun(c *xs.Ctx, r *xs.Result, rec *prodRecord, hist []ops.Op, acts [
 	n = f.Height()
 	// budgets used are part of the key: a state reached with less budget left must not hide one with more
 	key = fmt.Sprintf("%d|%s|%s|x%d g%d q%d", n, f.PoolDigest(), strings.Join(warm, ","), count(acts, "X", "Y"), count(acts, "G"), count(acts, "Q"))
+	if len(queried) > 0 {
+		key += "|c" + strings.Join(queried, ",")
+		// a restart after the query reloads the consensus points from disk: where it happened matters
+		for i, a := range acts {
+			if a.K == "X" || a.K == "Y" {
+				key += fmt.Sprintf("|%s@%d", a.K, i)
+			}
+		}
+	}
 	return
 }
 
@@ -400,6 +446,7 @@ func c02Units(tier string) [][3]int {
 			u = append(u, [3]int{hi, p, parts})
 		}
 	}
+	u = append(u, [3]int{-1, 0, 1}) // the short-epoch world
 	return u
 }
 
@@ -408,9 +455,14 @@ func runC02(c *xs.Ctx, r *xs.Result) {
 		var rep struct {
 			History  []ops.Op `json:"history"`
 			Schedule []fAct   `json:"schedule"`
+			World    string   `json:"world"`
 		}
 		if err := json.Unmarshal(c.Replay, &rep); err != nil {
 			panic(err)
+		}
+		if rep.World == "short-epochs" {
+			world = rep.World
+			c11.Setup()
 		}
 		rec, p := produce(c, rep.History)
 		p.Destroy()
@@ -427,6 +479,21 @@ func runC02(c *xs.Ctx, r *xs.Result) {
 	r.Count("histories_total", 0)
 	for ui, unit := range c02Units(c.Tier) {
 		if !c.Mine(ui) {
+			continue
+		}
+		if unit[0] < 0 {
+			// the constants are process-global: this unit is the last one, so nothing of the standard world runs after it
+			world = "short-epochs"
+			c11.Setup()
+			sb := c02bounds{maxBatch: 3, step: 3, maxQuery: 1, maxRestart: 1, restartAfterQueryOnly: true}
+			if c.Thorough() {
+				sb = c02bounds{maxBatch: 3, maxQuery: 2, maxRestart: 1, restartAfterQueryOnly: true}
+			}
+			t0 := time.Now()
+			exploreSchedules(c, r, shortEpochHistory(), sb)
+			r.Count("histories", 1)
+			r.Count("short_epoch_histories", 1)
+			r.Note("short-epoch world took %.0fs", time.Since(t0).Seconds())
 			continue
 		}
 		hi, hist := unit[0], hs[unit[0]]
@@ -513,7 +580,13 @@ func exploreSchedules(c *xs.Ctx, r *xs.Result, hist []ops.Op, b c02bounds) {
 		}
 		var succ []fAct
 		for j := n + 1; j <= rec.H && j <= n+b.maxBatch; j++ {
+			if b.step > 0 && j != rec.H && (j-1)%b.step != 0 {
+				continue
+			}
 			succ = append(succ, fAct{K: "D", J: j})
+		}
+		if count(it.acts, "C") < b.maxQuery && n > 1 {
+			succ = append(succ, fAct{K: "C"})
 		}
 		if count(it.acts, "G") < b.maxGossip {
 			for h := n + 1; h <= rec.H; h++ {
@@ -528,8 +601,11 @@ func exploreSchedules(c *xs.Ctx, r *xs.Result, hist []ops.Op, b c02bounds) {
 				}
 			}
 		}
-		if count(it.acts, "X", "Y") < b.maxRestart && n > 1 {
-			succ = append(succ, fAct{K: "X"}, fAct{K: "Y"})
+		if count(it.acts, "X", "Y") < b.maxRestart && n > 1 && (!b.restartAfterQueryOnly || count(it.acts, "C") > 0) {
+			succ = append(succ, fAct{K: "X"})
+			if !b.restartAfterQueryOnly {
+				succ = append(succ, fAct{K: "Y"})
+			}
 		}
 		if count(it.acts, "W") < b.maxWarm && n > 1 {
 			succ = append(succ, fAct{K: "W"})
